@@ -380,9 +380,8 @@ def many_parts_unit(ctx, unit):
         n = len(body)
         oracle = one_piece(boundary, body)
         ctx.count('bodies_with_over_a_thousand_parts' if count > 1000 else 'bodies_with_many_parts')
-        if oracle[1] is not None or len(oracle[0]) < count:
-            ctx.violation('many-parts-body-not-parsed-in-one-piece', f'{count} parts in one piece: error {oracle[1]}, {len(oracle[0])} sections', {'unit': {'kind': 'note', 'parts': count}})
-            continue
+        if oracle[1] is not None:
+            ctx.count('many_parts_refused_in_one_piece(compared all the same)')     # a limit is not this property's business; its dependence on the division is
         divisions = [(n // 2,), (n // 3, 2 * n // 3), tuple(range(1000, n, 1000)), tuple(range(4096, n, 4096)), tuple(sorted(rng.sample(range(1, n), 5))),
                      tuple(range(102400, n, 102400)) or (n - 7,)]
         for cuts in divisions:
